@@ -46,6 +46,7 @@ struct Proc {
 fn spawn(cfg: &PoolCfg) -> std::io::Result<Proc> {
     let exe = std::env::current_exe()?;
     let mut cmd = Command::new(exe);
+    cmd.env("RUST_BACKTRACE", "0");
     cmd.arg("--worker")
         .arg(cfg.worker)
         .env("TV_RLIMIT_AS", cfg.rlimit_as.to_string())
